@@ -6,27 +6,42 @@ From PlzV Require Import Base.Harness Model.Engine Proof.Engine Proof.C03.
 
 Definition C03_statement : Prop :=
   (* (a) no-op: after a successful `plz build req`, running it again on the unchanged tree executes
-     nothing, fails nothing and leaves plz-out exactly as it was - from ANY initial plz-out *)
+     nothing, fails nothing and leaves plz-out exactly as it was - from ANY initial plz-out.  With targets that
+     have output_dirs two executable side conditions are needed (both are trivially true without such targets):
+     no such target was rebuilt with the outputs of an old metadata file still attached (plz_stale, the finding
+     of C01), and the metadata files of the initial plz-out name only files their target can discover (dyn_ok) *)
   (forall r req st, wf_repo (restrict r req) = true ->
      run_ok (plz_build false r req st) = true ->
+     plz_stale false r req st = false -> dyn_ok (restrict r req) st = true ->
      plz_build false r req (rn_st (plz_build false r req st)) = mkRun (rn_st (plz_build false r req st)) [] [])
-  (* (b) a command runs only when needsBuilding said so, and that happens only when the metadata file is
-     missing, an output or its record is missing or inconsistent, the recorded rule key differs from the
-     current definition, a source is missing, or the recorded source key differs from the current one *)
+  (* (b) a command runs only when needsBuilding said so - before the build or, for a target with output_dirs,
+     after the outputs named by its metadata were added (stale_flow) - and that happens only when the metadata
+     file is missing, an output or its record is missing or inconsistent, the recorded rule key (pre-build; for
+     the second check the post-build one, taken over the outputs) differs from the current definition, a source
+     is missing, or the recorded source key differs from the current one *)
   /\ (forall r rn t, rn_log (build_one false r rn t) = t_label t :: rn_log rn ->
-        s_meta (rn_st rn) (t_label t) = false
-        \/ common_rec (rn_st rn) (out_rels t) = None
-        \/ exists rk, common_rec (rn_st rn) (out_rels t) = Some rk
-             /\ (fst rk <> t_defkey t \/ source_key r (rn_st rn) t = None
-                 \/ exists k, source_key r (rn_st rn) t = Some k /\ k <> snd rk))
+        (needs_build r (rn_st rn) t = true
+         /\ (s_meta (rn_st rn) (t_label t) = false
+             \/ common_rec (rn_st rn) (out_rels t) = None
+             \/ exists rk, common_rec (rn_st rn) (out_rels t) = Some rk
+                  /\ (rk_def rk <> t_defkey t \/ source_key r (rn_st rn) t = None
+                      \/ exists k, source_key r (rn_st rn) t = Some k /\ k <> snd rk)))
+        \/ (could_modify t = true /\ needs_build r (rn_st rn) t = false
+            /\ (common_rec (rn_st rn) (map (out_rel t) (meta_outs (rn_st rn) t)) = None
+                \/ exists rk, common_rec (rn_st rn) (map (out_rel t) (meta_outs (rn_st rn) t)) = Some rk
+                     /\ (rk_def rk <> t_defkey t \/ rk_outs rk <> meta_outs (rn_st rn) t \/ source_key r (rn_st rn) t = None
+                         \/ exists k, source_key r (rn_st rn) t = Some k /\ k <> snd rk))))
   (* (c) cut-off across an edit: r1 built successfully, tree edited to r2 (anything may change: files,
-     other targets, the order), r2 built.  A rule that is in both with the same definition and whose source
-     key at its turn in the second build equals its source key after the first build is NOT executed *)
+     other targets, the order), r2 built.  A rule without output_dirs that is in both with the same definition and
+     whose source key at its turn in the second build equals its source key after the first build is NOT executed
+     (side conditions on output_dirs targets of the two trees as in (a)) *)
   /\ (forall r1 r2 st0 t pre post,
         wf_repo r1 = true -> wf_repo r2 = true -> run_ok (build_all false r1 st0) = true ->
-        In t (r_targets r1) -> r_targets r2 = pre ++ t :: post -> is_filegroup t = false ->
+        stale_in false r1 (r_targets r1) (mkRun st0 [] []) = false -> dyn_ok r1 st0 = true ->
+        In t (r_targets r1) -> r_targets r2 = pre ++ t :: post -> is_filegroup t = false -> could_modify t = false ->
         let st1 := rn_st (build_all false r1 st0) in
         let before := fold_left (build_one false r2) pre (mkRun st1 [] []) in
+        stale_in false r2 pre (mkRun st1 [] []) = false ->
         source_key r2 (rn_st before) t = source_key r1 st1 t ->
         ~ In (t_label t) (rn_log (build_all false r2 st1)))
   (* (d) the source key only sees path-hash streams: a dependency rebuilt to outputs with the same streams
@@ -38,8 +53,10 @@ Definition C03_statement : Prop :=
 Theorem C03_full : C03_statement.
 Proof.
   split; [|split; [|split]].
-  - intros r req st Hwf Hok. unfold plz_build in *. apply noop_build_all; assumption.
-  - intros r rn t H. apply needs_build_reasons. apply executed_needs_build. exact H.
+  - intros r req st Hwf Hok Hq Hd. unfold plz_build, plz_stale in *. apply noop_build_all; assumption.
+  - intros r rn t H. destruct (executed_needs_build r rn t H) as [Hn|Hs].
+    + left. split; [exact Hn|]. apply needs_build_reasons. exact Hn.
+    + right. apply stale_flow_reasons. exact Hs.
   - exact cutoff_two_builds.
   - exact source_key_streams.
 Qed.
@@ -58,4 +75,34 @@ Example C03_nonvacuous :
   /\ run_ok (build_all false nv_r1 empty_store) = true
   /\ rn_log (build_all false nv_r1 (rn_st (build_all false nv_r1 empty_store))) = []
   /\ rn_log (build_all false nv_r2 (rn_st (build_all false nv_r1 empty_store))) = [s "//p:a"].
+Proof. vm_compute. repeat split. Qed.
+
+(* Non-vacuity with output_dirs: o copies a.txt and b.txt into its output directory _o (declared out o.marker).
+   The repository is well formed, the build from an empty plz-out discovers a.txt and b.txt, no target goes
+   through stale_flow, the metadata condition holds, and the second build does nothing. *)
+Definition nv_o (srcs : list str) (out key : str) : target := mkT (s "//p:o") (s "p") (Genrule OutDir) (map SFile srcs) [out] key.
+Definition nv_ro : repo := mkR [(s "p/a.txt", s "1"); (s "p/b.txt", s "2")] [nv_o [s "a.txt"; s "b.txt"] (s "o.marker") (s "ko")].
+Example C03_nonvacuous_output_dirs :
+  wf_repo nv_ro = true
+  /\ run_ok (build_all false nv_ro empty_store) = true
+  /\ stale_in false nv_ro (r_targets nv_ro) (mkRun empty_store [] []) = false
+  /\ dyn_ok nv_ro empty_store = true
+  /\ s_dyn (rn_st (build_all false nv_ro empty_store)) (s "//p:o") = [s "a.txt"; s "b.txt"]
+  /\ rn_log (build_all false nv_ro (rn_st (build_all false nv_ro empty_store))) = [].
+Proof. vm_compute. repeat split. Qed.
+
+(* The side condition plz_stale is needed: the declared out renamed (m1 -> m2, one more source), built, and
+   renamed back.  The third build passes the pre-build check on the stale m1, attaches the outputs of the
+   metadata written by the second build, fails the post-build check and the rebuild fails (b.txt is demanded);
+   the fourth build of the same tree succeeds (finding output-dirs-target-fails-to-rebuild-after-declared-out-
+   renamed-back of C01, reproduced on the real plz by the C01 harness). *)
+Definition st_A : repo := mkR [(s "p/a.txt", s "1"); (s "p/b.txt", s "2")] [nv_o [s "a.txt"] (s "m1") (s "kA")].
+Definition st_B : repo := mkR [(s "p/a.txt", s "1"); (s "p/b.txt", s "2")] [nv_o [s "a.txt"; s "b.txt"] (s "m2") (s "kB")].
+Definition st_2 : store := rn_st (build_all false st_B (rn_st (build_all false st_A empty_store))).
+Example C03_stale_flow_witness :
+  wf_repo st_A = true /\ wf_repo st_B = true
+  /\ stale_in false st_A (r_targets st_A) (mkRun st_2 [] []) = true
+  /\ run_ok (build_all false st_A st_2) = false
+  /\ run_ok (build_all false st_A (rn_st (build_all false st_A st_2))) = true
+  /\ run_ok (build_all false st_A empty_store) = true.
 Proof. vm_compute. repeat split. Qed.
